@@ -26,6 +26,7 @@ PROFILES = [
     ('reexport',  4, dict(reexport=0.6, roots=(1, 3), alias=0.3, class_imports=0.2)),
     ('consumers', 2, dict(reexport=0.7, roots=(2, 3), consumer_roots=True)),
     ('relative',  2, dict(reexport=0.3, relative=0.9, subpkg=0.8, roots=(1, 2))),
+    ('nested-refs', 3, dict(reexport=0.4, roots=(1, 3), nested=0.7, nested_refs=0.8, alias=0.4, class_imports=0.2)),
     ('private',   2, dict(reexport=0.2, private_defs=0.4, star=0.6, own_all=0.7, roots=(1, 2))),
     ('classscope', 3, dict(reexport=0.2, alias_pool=True, class_imports=0.5, nested=0.5, max_bases=3, defs=(2, 4), roots=(1, 2),
                            method_pool=True)),
